@@ -1,6 +1,7 @@
 """C08: commit persists last-consumed+1 for the changed partitions; a restarted consumer resumes there."""
 import kproto
 from val import T, dumps
+from props import common
 from props.common import boot_ops, brokers, known_safe_log
 
 SLICE = "Consumer consume_message / consume_messageset / commit_consumed / last_consumed_message + Client commit_offsets, and State::new after a restart"
@@ -69,6 +70,7 @@ def make_setup(rng, leaderless=0.0):
         if all(l < 0 for l in topics[t]):
             topics[t][0] = rng.randint(1, nb)     # a topic without any leader cannot be subscribed at all
     spec = {"brokers": brokers(nb), "topics": topics, "logs": logs, "log_start": log_start}
+    common.maybe_order(rng, spec)
     tps = [(t, p) for t in names for p in range(len(topics[t]))]
     committed = {}
     for tp in tps:
